@@ -2,6 +2,7 @@ package props
 
 import (
 	"fmt"
+	"github.com/go-kid/ioc/container/processors"
 	"math"
 
 	"verifharness/core"
@@ -169,6 +170,12 @@ func (p c13) Run(c *core.Ctx) {
 		}
 		extra = append(extra, world.NewDecorator(names...))
 		c.Count("runners_exposed_through_decorators", len(names))
+	}
+	if c.Rng.Intn(6) == 0 {
+		// the library's exported by-type resolver registered next to the default one: every runner is still one
+		// participant
+		extra = append(extra, processors.NewDependencyTypeAwarePostProcessors())
+		c.Count("starts_with_the_exported_by_type_resolver_registered_too", 1)
 	}
 	r := world.Build(sc, world.Options{Extra: extra})
 	world.SetZeroLog(r.Log)
